@@ -14,26 +14,26 @@ NOTE_SESS = ("Exhaustive only within the stated constants of the .cfg files; bey
              "harness renderer AST->text, the probe projection, TLC. Floating-point content is specified only on short "
              "dyadic rationals (types everywhere); sessions leaving that domain are discarded and counted.")
 CHECKS = {
- "C01": ("model_checking", SESS, "DESIGN.md 5 C01", "TLA+ spec + TLC bounded program space, spec-to-impl sessions validated by TLC trace validation"),
- "C03": ("model_checking", "Explicit implementation-shaped TLA+ model of Runtime's run states and of the terminal's calling protocol (RuntimeShell). TLC checks ProtocolSafe, CacheCoherent and the liveness property Converges (after one interrupt and no further input the prompt is reached, weak fairness of execute). The harness drives the real Runtime through the protocol with menu sequences, every short string over the lexical alphabet, byte / token soup and damaged programs, interrupts, replies and live listing snapshots, recording every API call with its event and a state probe; TLC (TraceShell) decides whether each call trace is a behaviour of the model; a caught panic or a call that does not return within the watchdog has no counterpart.", "DESIGN.md 5 C03", "TLA+ shell model + TLC safety and liveness; implementation call traces validated by TLC trace validation"),
- "C04": ("model_checking", SESS, "DESIGN.md 5 C04", "TLA+ spec + TLC state graph of edit histories, TLC trace validation"),
- "C05": ("model_checking", "Explicit TLA+ model of the scanner and lister (BasicLex: Lex, ShowL, Meaning). TLC enumerates every string up to the bound over the lexically significant alphabet, checks ModelRoundTrip on the model, and prints each string with the model's tokens and listed text; the harness feeds each to the real lexer / lister / parser and checks the property's own relations (same number, same parse or rejected in both, fixed point for lines that parse, literals preserved) and counts model/implementation divergence separately.", "DESIGN.md 5 C05", "TLA+ model scanner + TLC exhaustive enumeration of short strings, spec-to-implementation replay with relational oracle"),
- "C06": ("model_checking", SESS, "DESIGN.md 5 C06", "TLA+ spec + TLC state graph of the variable store, TLC trace validation with full store probe"),
- "C08": ("model_checking", "TLC enumerates the whole bounded operand grid on the TLA+ value specification (BasicValues), checks the arithmetic laws on the specification itself, and every enumerated case is replayed against the real VM and compared with the specified value or error code.", "DESIGN.md 5 C08", "TLA+ spec + TLC enumeration, spec-to-implementation replay"),
- "C09": ("model_checking", SESS, "DESIGN.md 5 C09", "TLA+ spec + TLC bounded program space (DATA placements), TLC trace validation"),
- "C10": ("model_checking", SESS, "DESIGN.md 5 C10", "TLA+ spec + TLC bounded program space (user functions), TLC trace validation"),
- "C11": ("model_checking", SESS, "DESIGN.md 5 C11", "TLA+ spec + TLC bounded program space (print lists), TLC trace validation"),
- "C12": ("model_checking", SESS, "DESIGN.md 5 C12", "TLA+ spec + TLC action properties RunIsFresh/ClearIsInit/NewIsEmpty, TLC trace validation"),
- "C13": ("model_checking", SESS, "DESIGN.md 5 C13", "TLA+ spec + TLC InterruptTransparent; exhaustive interrupt sweep on the code validated by TLC trace validation"),
- "C16": ("model_checking", "The model scanner (BasicLex) reads the canonical lines of sampled programs; MC_C16 derives the spelling variants the manual allows (case, optional blanks, ? ' GO TO GO SUB =< => < >, optional LET, lower-case exponent / hex) and TLC checks SpellingSound on the model; every variant is fed to the real lexer / lister / parser (same listing, same AST as the canonical text) and whole sessions are re-typed in each spelling and trace-validated against the AST-level abstract machine (they run identically).", "DESIGN.md 5 C16", "TLA+ model scanner + TLC-derived spelling variants, spec-to-implementation replay + TLC trace validation"),
- "C17": ("model_checking", SESS, "DESIGN.md 5 C17", "TLA+ spec + TLC bounded INPUT x reply space, TLC trace validation"),
- "C02": ("model_checking", "TLC enumerates the operator x type matrix, all operator pairs in both groupings rendered with the minimal parentheses of the 13-level table, literal structures and assignments on the TLA+ value specification (BasicValues/BasicExpr), checks TypeLaw on it, and every case is replayed against the real interpreter comparing value, type and error code; seeded random expression trees inside programs are trace-validated.", "DESIGN.md 5 C02", "TLA+ spec + TLC enumeration of the expression grid, spec-to-implementation replay + TLC trace validation"),
- "C07": ("model_checking", "TLC enumerates every string function x argument combination of the grid on the TLA+ string operators (code-point sequences), checks the laws relating them on the specification, and every case is replayed against the real VM (value, type, error code, printed text); MID$ assignment over the same grid as trace-validated sessions.", "DESIGN.md 5 C07", "TLA+ spec + TLC enumeration, spec-to-implementation replay + TLC trace validation"),
- "C14": ("model_checking", SESS, "DESIGN.md 5 C14", "TLA+ spec (BasicRenum) + TLC RenumExact/RenumSound over referencing forms x argument triples, TLC trace validation incl. listed text"),
- "C15": ("model_checking", SESS, "DESIGN.md 5 C15", "TLA+ spec + TLC state graph of the program store (ListExact/DeleteExact/LineExact), TLC trace validation incl. listed text"),
- "C18": ("model_checking", SESS, "DESIGN.md 5 C18", "TLA+ spec + TLC StmtNeutral/PoolBounded; leak and pool-limit sessions validated by TLC trace validation (stack probe)"),
- "C19": ("model_checking", SESS, "DESIGN.md 5 C19", "TLA+ spec (BasicProg.Analyze with character ranges from BasicShow segments) + TLC DiagInside/NoRun, TLC trace validation of codes, lines, ranges, underlines"),
- "C20": ("model_checking", SESS, "DESIGN.md 5 C20", "TLA+ spec + TLC LayoutInvariant over layout transformations, TLC trace validation of both layouts"),
+ "C01": ("model_checking", SESS, "DESIGN.md I.2 and section 5 C01", "TLA+ spec + TLC bounded program space, spec-to-impl sessions validated by TLC trace validation"),
+ "C03": ("model_checking", "Explicit implementation-shaped TLA+ model of Runtime's run states and of the terminal's calling protocol (RuntimeShell). TLC checks ProtocolSafe, CacheCoherent and the liveness property Converges (after one interrupt and no further input the prompt is reached, weak fairness of execute). The harness drives the real Runtime through the protocol with menu sequences, every short string over the lexical alphabet, byte / token soup and damaged programs, interrupts, replies and live listing snapshots, recording every API call with its event and a state probe; TLC (TraceShell) decides whether each call trace is a behaviour of the model; a caught panic or a call that does not return within the watchdog has no counterpart.", "DESIGN.md I.2 and section 5 C03", "TLA+ shell model + TLC safety and liveness; implementation call traces validated by TLC trace validation"),
+ "C04": ("model_checking", SESS, "DESIGN.md I.2 and section 5 C04", "TLA+ spec + TLC state graph of edit histories, TLC trace validation"),
+ "C05": ("model_checking", "Explicit TLA+ model of the scanner and lister (BasicLex: Lex, ShowL, Meaning). TLC enumerates every string up to the bound over the lexically significant alphabet, checks ModelRoundTrip on the model, and prints each string with the model's tokens and listed text; the harness feeds each to the real lexer / lister / parser and checks the property's own relations (same number, same parse or rejected in both, fixed point for lines that parse, literals preserved) and counts model/implementation divergence separately.", "DESIGN.md I.2 and section 5 C05", "TLA+ model scanner + TLC exhaustive enumeration of short strings, spec-to-implementation replay with relational oracle"),
+ "C06": ("model_checking", SESS, "DESIGN.md I.2 and section 5 C06", "TLA+ spec + TLC state graph of the variable store, TLC trace validation with full store probe"),
+ "C08": ("model_checking", "TLC enumerates the whole bounded operand grid on the TLA+ value specification (BasicValues), checks the arithmetic laws on the specification itself, and every enumerated case is replayed against the real VM and compared with the specified value or error code.", "DESIGN.md I.2 and section 5 C08", "TLA+ spec + TLC enumeration, spec-to-implementation replay"),
+ "C09": ("model_checking", SESS, "DESIGN.md I.2 and section 5 C09", "TLA+ spec + TLC bounded program space (DATA placements), TLC trace validation"),
+ "C10": ("model_checking", SESS, "DESIGN.md I.2 and section 5 C10", "TLA+ spec + TLC bounded program space (user functions), TLC trace validation"),
+ "C11": ("model_checking", SESS, "DESIGN.md I.2 and section 5 C11", "TLA+ spec + TLC bounded program space (print lists), TLC trace validation"),
+ "C12": ("model_checking", SESS, "DESIGN.md I.2 and section 5 C12", "TLA+ spec + TLC action properties RunIsFresh/ClearIsInit/NewIsEmpty, TLC trace validation"),
+ "C13": ("model_checking", SESS, "DESIGN.md I.2 and section 5 C13", "TLA+ spec + TLC InterruptTransparent; exhaustive interrupt sweep on the code validated by TLC trace validation"),
+ "C16": ("model_checking", "The model scanner (BasicLex) reads the canonical lines of sampled programs; MC_C16 derives the spelling variants the manual allows (case, optional blanks, ? ' GO TO GO SUB =< => < >, optional LET, lower-case exponent / hex) and TLC checks SpellingSound on the model; every variant is fed to the real lexer / lister / parser (same listing, same AST as the canonical text) and whole sessions are re-typed in each spelling and trace-validated against the AST-level abstract machine (they run identically).", "DESIGN.md I.2 and section 5 C16", "TLA+ model scanner + TLC-derived spelling variants, spec-to-implementation replay + TLC trace validation"),
+ "C17": ("model_checking", SESS, "DESIGN.md I.2 and section 5 C17", "TLA+ spec + TLC bounded INPUT x reply space, TLC trace validation"),
+ "C02": ("model_checking", "TLC enumerates the operator x type matrix, all operator pairs in both groupings rendered with the minimal parentheses of the 13-level table, literal structures and assignments on the TLA+ value specification (BasicValues/BasicExpr), checks TypeLaw on it, and every case is replayed against the real interpreter comparing value, type and error code; seeded random expression trees inside programs are trace-validated.", "DESIGN.md I.2 and section 5 C02", "TLA+ spec + TLC enumeration of the expression grid, spec-to-implementation replay + TLC trace validation"),
+ "C07": ("model_checking", "TLC enumerates every string function x argument combination of the grid on the TLA+ string operators (code-point sequences), checks the laws relating them on the specification, and every case is replayed against the real VM (value, type, error code, printed text); MID$ assignment over the same grid as trace-validated sessions.", "DESIGN.md I.2 and section 5 C07", "TLA+ spec + TLC enumeration, spec-to-implementation replay + TLC trace validation"),
+ "C14": ("model_checking", SESS, "DESIGN.md I.2 and section 5 C14", "TLA+ spec (BasicRenum) + TLC RenumExact/RenumSound over referencing forms x argument triples, TLC trace validation incl. listed text"),
+ "C15": ("model_checking", SESS, "DESIGN.md I.2 and section 5 C15", "TLA+ spec + TLC state graph of the program store (ListExact/DeleteExact/LineExact), TLC trace validation incl. listed text"),
+ "C18": ("model_checking", SESS, "DESIGN.md I.2 and section 5 C18", "TLA+ spec + TLC StmtNeutral/PoolBounded; leak and pool-limit sessions validated by TLC trace validation (stack probe)"),
+ "C19": ("model_checking", SESS, "DESIGN.md I.2 and section 5 C19", "TLA+ spec (BasicProg.Analyze with character ranges from BasicShow segments) + TLC DiagInside/NoRun, TLC trace validation of codes, lines, ranges, underlines"),
+ "C20": ("model_checking", SESS, "DESIGN.md I.2 and section 5 C20", "TLA+ spec + TLC LayoutInvariant over layout transformations, TLC trace validation of both layouts"),
 }
 NOTES = {"C08": "Exhaustive over the stated grid only (all 65536 values for unary forms in the thorough tier, boundary grid for binary operators); harness renderer/comparator trusted."}
 ALL = ["C%02d" % i for i in range(1, 21)]
@@ -57,7 +57,9 @@ def main():
      "engines": [{"name": "tlc+bvh", "path": "/verif/check", "serves_properties": sorted(CHECKS),
                   "kind_free_text": "explicit TLA+ specification model-checked by TLC; TLC-enumerated behaviours replayed into the real interpreter by the Rust harness bvh; implementation traces validated by TLC"}],
      "checks": [], "not_applicable": [],
-     "notes": "see DESIGN.md; properties listed under not_applicable with 'not built yet' are work in progress, not judged inapplicable"}
+     "notes": "see DESIGN.md Part I (as built: I.2 how each property is decided, I.4 findings, I.5 false alarms corrected, I.6 "
+              "seeded changes); all 20 properties are claimed, none is not_applicable; lines starting NOTE report drift of the "
+              "implementation-level model and never change an exit code"}
     for pid in ALL:
         if pid in CHECKS:
             cat, text, ref, tech = CHECKS[pid]
